@@ -173,6 +173,15 @@ def run(ctx, broken):
                    "combination: the decision must be the one Char::normalize implies at every site (prefilter, scoring, comparing)." % scalars)
     res["samples"] = [{"table": t, "run": list(r)} for t in ("G", "U011", "A010") for r in runs.get(t, [])[40:43]]
     res["extra"] = {"sites_probe_calls": res["extra"].get("sites_probe_calls", 0), "scalars": scalars, "reference": {"fold_pairs": len(reffold), "nfkd_rows": len(ref["nfkd"])}}
+    # the normalisation applied to a haystack character must not depend on what the Matcher was used for before: the
+    # Atom level sets the matcher's normalize / ignore_case flags itself on every call (reduced C15 stream; its
+    # `state` and `atom_indices` clauses - flags after a call are the atom's, Atom::indices decides like Atom::score on a
+    # shared Matcher with left-over flags - count for this property; round 6, C16-m12)
+    import c15
+    fs, ev = c15.subset_failures(ctx, {"state", "atom_indices"}, 2500)
+    res["failures"] += [dict(f, cls_origin="C15 stream") for f in fs]
+    res["evaluations"] += ev
+    res["rule"] += " Atom level: reduced C15 stream (flags left in a shared Matcher never change which normalisation an atom's call applies)."
     return res
 
 
@@ -180,6 +189,8 @@ KNOWN_CLASSES = {}
 
 
 def known(f, kf):
+    if f.get("cls_origin") == "C15 stream":
+        return None
     for k in kf.get("known", []):
         if k["property"] == "C16" and k.get("class") == f["class"] and f["c"] in k.get("code_points", []):
             return k
@@ -192,6 +203,9 @@ def broken_known(b, kf, failures):
 
 def replay(path):
     d = json.load(open(path))
+    if (d.get("failure") or {}).get("cls_origin") == "C15 stream":
+        import c15
+        return c15.replay(path)
     print(json.dumps(d, indent=1, ensure_ascii=False))
     f = d.get("failure")
     if f and "c" in f:
